@@ -155,11 +155,11 @@ CHECKS["C07"] = {
 
 CHECKS["C08"] = {
     "level": "other",
-    "explanation": "Same harnesses as C07, other assertions: a successful non-dry-run write appends exactly one log whose id is greater than every earlier id and equals the returned one (also after a deadlock retry); failed and dry-run writes append none (their state is unchanged, C07); and the payload alone determines the state: running the real importLog on the emitted log over a copy of the pre-state yields the same transactions (ids, postings, metadata, reference, timestamp, revert mark, post-commit volumes), volumes, accounts (address, first usage, metadata), moves and schemas as the live write did.",
+    "explanation": "Same harnesses as C07, other assertions: a successful non-dry-run write appends exactly one log whose id is greater than every earlier id and equals the returned one (also after a deadlock retry); failed and dry-run writes append none — a dry run also when store calls fail and the retry path is taken (their state is unchanged, C07); and the payload alone determines the state: running the real importLog on the emitted log over a copy of the pre-state yields the same transactions (ids, postings, metadata, reference, timestamp, revert mark, post-commit volumes), volumes, accounts (address, first usage, metadata), moves and schemas as the live write did.",
     "bounds": {"quick": OPS_LIST + "; symbolic amounts; <= 2 injected store failures", "thorough": "<= 3 injected failures"},
     "outside": "log ids under concurrency (C16); hash chain (C09); insertion_date/updated_at stamps are not part of the replay relation; schema-carrying ledgers (chart default metadata) are covered under C29",
     "assumptions": COMMON_ASSUME + DBMODEL_ASSUME,
-    "units": ctrl_units(["OPS_wet", "OPS_wetfault", "OPS_wetfault2", "SYM_wet", "SYM_wetfault"], ["OPS_wetfault3"], "^C08:"),
+    "units": ctrl_units(["OPS_wet", "OPS_wetfault", "OPS_wetfault2", "SYM_wet", "SYM_wetfault", "OPS_dry", "OPS_dryfault", "OPS_dryfault2"], ["OPS_wetfault3"], "^C08:"),
 }
 
 CHECKS["C13"] = {
